@@ -21,6 +21,7 @@ RULE = ('one run = 5-25 compilations (load_object inside catch, then destruct) o
         'or EIO at the k-th read of the source, or an LPC error injected at instruction k of the master applies during the compile. After '
         'each compilation the probe program is compiled and run. non-trivial = at least three compilations failed and one succeeded; '
         'distinct = distinct sequence of (damage kind, outcome).')
+RULE += (" Later additions: damage kinds for data-table objects (initialiser block many times the code), programs overriding 200-300 inherited functions (with a probe of nine functions on both sides of the 255th), very long names in a dozen roles, headers and macros that include themselves; masters whose log_error() loads a helper from its saved binary in the middle of the failing compilation; 'object xor reported error' judged in both directions (not for compilations with an injected read error).")
 COMPONENTS = {'real': ['lib/lpc/lex.c (lexer, preprocessor, include stack)', 'lib/lpc/grammar.y', 'lib/lpc/compiler.c', 'lib/lpc/program/icode.c, generate.c', 'lib/lpc/scratchpad.c', 'src/simulate.c load_object',
                        'master::log_error apply', 'src/backend.c + comm.c'],
               'stub': ['kernel sockets/clock/timer (simulated)', 'file layer: pass-through with short reads and EIO on read'],
